@@ -77,7 +77,7 @@ def print_part(chk, vh, quick):
         calls = 150 if quick else 600
         data = run_child(vh, threads, calls, stream, env)
         evs = tokenize(data)
-        expect = sum(4 if (c + t) % 7 in (0, 1, 2, 4) else 3 for t in range(1, threads + 1) for c in range(1, calls + 1))
+        expect = sum(4 if (c + t) % 9 in (0, 1, 2, 4) else 3 for t in range(1, threads + 1) for c in range(1, calls + 1))
         mode = "pass-through" if env else "strip"
         if env and b"\x1b[" not in data:
             raise vlib.ToolError("pass-through mode expected but no escape sequence reached the pipe")
